@@ -369,7 +369,7 @@ class Superposition(SuperpositionDomain, ExprDict):
                              (self.quantity, x.quantity))
 
         if _is_s_arg(x):
-            new = self.decompose()
+            new = self.__class__(self.decompose())
         else:
             new = self.__class__(self)
 
@@ -476,7 +476,10 @@ class Superposition(SuperpositionDomain, ExprDict):
             if kind == 't':
                 decomp = new._decompose_timedomain_expr(value)
                 for key, value in decomp.items():
-                    new[key] = value
+                    if key in new:
+                        new[key] += value
+                    else:
+                        new[key] = value
             else:
                 new[kind] = value
 
